@@ -31,6 +31,9 @@ func init() {
 			{ID: "C07.R10", Text: "a copy is left out of the minimum ⇔ the cluster map does not assign that very copy: markAbsentInstances marks copy i absent ⇔ its own lookup yields a negative index or 'invalid replica' (1..3 copies, exhaustive); any other lookup error stops and is reported", Run: absentMarks},
 			{ID: "C07.R11", Text: "no lost wake-up on the way to the observer: dispatchPersistSeqNo forwards every report to observers[vbID].SetPersistSeqNo under no condition but 'the stream has that observer', and keeps no state of its own", Run: dispatchUnconditional},
 			{ID: "C07.R12", Text: "the gate waits ⇔ a threshold will come: Open starts the mitigation component ⇔ ¬Disabled ∧ ¬IsEphemeral() and otherwise switches the very configuration flag the gate reads; IsEphemeral ⇔ bucketType = \"ephemeral\"", Run: gateSourceAgrees},
+			{ID: "C07.R13", Text: "the observe callback, exhaustively: the round is always signalled exactly once and first; a closed mitigation or stale generation changes nothing; ambiguous-timeout / temporary-failure / busy change nothing and are survived, any other error stops the client; an outdated record is updated on both fields, then the minimum is taken, then (vbID, min) is dispatched; the branch id for the next observe is refreshed ⇔ the copy reported another one", Run: observeCallbackExact},
+			{ID: "C07.R14", Text: "the plumbing around the callback: Start = first configuration (or die), reconfigure, watch loop calling configWatch; Stop raises unconditionally the flag the loop and callback read; the observe loop starts with a fresh, loaded branch-id map and a ticker; loadVbUUIDMap runs one loader per vBucket and dies on error; loadVbUUID returns the failover-log error or records entry 0; SetAbsent raises what IsAbsent returns; the first configuration's wait error is returned", Run: mitigationLifecycle},
+			{ID: "C07.R15", Text: "reset, for 0..2 replicas × 0..2 vBuckets: replicas+1 records per vBucket, round counter = vBuckets × (replicas+1)", Run: resetCounts},
 			{ID: "C07.R6", Text: "close releases without delivering: observer.Close sets closed; listener called ⇔ ¬closed", Run: c07r6},
 		},
 	})
